@@ -524,7 +524,7 @@ impl Slots {
         if thorough {
             Slots {
                 arg: vec!["", "0", "1", "10", "a", "_0", "_a", "é"],
-                ws_before_colon: vec!["", " "],
+                ws_before_colon: vec!["", " ", "\u{a0}", "\u{3000}"],
                 fill_align: vec!["", "<", "^", ">", "*<", "0>", "é^", "}<"],
                 sign: vec!["", "+", "-"],
                 alt: vec!["", "#"],
@@ -532,12 +532,12 @@ impl Slots {
                 width: vec!["", "5", "0", "10", "1$", "a$", "0$"],
                 prec: vec!["", ".3", ".0", ".1$", ".a$", ".*"],
                 ty: vec!["", "?", "x?", "X?", "o", "x", "X", "p", "b", "e", "E", "q", "d"],
-                trailing: vec!["", " ", "  ", "\t", "\n"],
+                trailing: vec!["", " ", "  ", "\t", "\n", "\u{2028}", "\u{85}"],
             }
         } else {
             Slots {
                 arg: vec!["", "1", "_0", "a"],
-                ws_before_colon: vec!["", " "],
+                ws_before_colon: vec!["", " ", "\u{a0}"],
                 fill_align: vec!["", ">", "*<", "é^"],
                 sign: vec!["", "+"],
                 alt: vec!["", "#"],
@@ -545,7 +545,7 @@ impl Slots {
                 width: vec!["", "5", "1$", "0$"],
                 prec: vec!["", ".3", ".a$", ".*"],
                 ty: vec!["", "?", "x?", "x", "e", "q"],
-                trailing: vec!["", " ", "\n"],
+                trailing: vec!["", " ", "\n", "\u{2028}"],
             }
         }
     }
